@@ -9,6 +9,9 @@
 import NV.Lemmas.Router
 import NV.Gen.Router
 import NV.Lemmas.RouterUci
+import NV.Model.SvcLife
+import NV.Lemmas.SvcLife
+import NV.Gen.Hooks
 namespace NV.C20
 open NV NV.Router NV.Tmpl
 
@@ -806,5 +809,70 @@ theorem ubios_setup_after_failed_configure :
       (a.1, a.2.2.1.listens, b.1,
         (aget b.2.2.files Gen.Router.ubios.path).map fun t => (directives .ubios t).filter (isPrefix b!"server=")))
     = some (false, [b!"localhost:53"], true, some [b!"server=127.0.0.1#5342"]) := by decide +kernel
+
+
+/-! ### OnStarted / OnStopped wiring (run.go) and the life cycle it hangs on -/
+section Wiring
+open NV.SvcStart NV.SvcLife
+
+/-- what undoes a start-up hook -/
+def undoOf : String → String
+  | "r.Setup" => "r.Restore"
+  | "activate" => "deactivate"
+  | _ => "?"
+
+/-- the value of a registration condition of run() under a configuration; conditions the model does
+not know make the registration unknown (`none`) -/
+def condVal (setupRouter autoActivate : Bool) : String → Option Bool
+  | "c.SetupRouter" => some setupRouter
+  | "c.AutoActivate" => some autoActivate
+  | "" => some true
+  | _ => none
+
+/-- the calls of one hook round under a configuration, from the REGENERATED registration table -/
+def hookCalls (setupRouter autoActivate : Bool) (list : String) : Option (List String) :=
+  Gen.Hooks.wiring.foldr (fun w acc =>
+    if w.2.1 != list then acc else
+    match condVal setupRouter autoActivate w.1, acc with
+    | some true, some cs => some (w.2.2 ++ cs)
+    | some false, some cs => some cs
+    | _, _ => none) (some [])
+
+/-- the start-up calls of a configuration -/
+def upCalls (sr aa : Bool) : List String :=
+  (if sr then ["r.Setup"] else []) ++ (if aa then ["activate"] else [])
+
+/-- **(regenerated)** for every configuration the shut-down round undoes exactly what the start-up round
+did, in the same order: `r.Setup` ↔ `r.Restore` under `-setup-router`, `activate` ↔ `deactivate` under
+`-auto-activate`, nothing else and nothing under another condition. -/
+theorem gen_wiring_paired (sr aa : Bool) :
+    hookCalls sr aa "OnStarted" = some (upCalls sr aa) ∧
+    hookCalls sr aa "OnStopped" = some ((upCalls sr aa).map undoOf) := by
+  cases sr <;> cases aa <;> decide
+
+/-- the hook calls of a whole history of hook rounds -/
+def expand (sr aa : Bool) (log : List Hook) : List String :=
+  log.flatMap fun h => ((hookCalls sr aa (match h with | .up => "OnStarted" | .down => "OnStopped")).getD ["?"])
+
+/-- **the daemon under its run loop, every configuration, every start outcome, every signal sequence**:
+a run that started and received a stopping signal made exactly the start-up calls followed by their
+undoing calls (router Restore after Setup, deactivate after activate); a run that never started made none;
+only a run that is still serving has start-up calls not yet undone. -/
+theorem run_undoes_setup (sr aa fg : Bool) (as : List Att) (sigs : List Sig) :
+    ∃ s us, SvcLife.run SvcLife.init (runLoopOps fg as sigs) = some s ∧ hookCalls sr aa "OnStarted" = some us ∧
+      expand sr aa s.log =
+        (if svcStart as = .started then
+           (if sigs.any (stopsOn fg) = true then us ++ us.map undoOf else us) else []) := by
+  obtain ⟨s, hr, hl, _⟩ := NV.SvcLife.service_run_log' fg as sigs
+  obtain ⟨hu, hd⟩ := gen_wiring_paired sr aa
+  refine ⟨s, upCalls sr aa, hr, hu, ?_⟩
+  rw [hl]
+  by_cases h1 : svcStart as = .started
+  · by_cases h2 : sigs.any (stopsOn fg) = true
+    · simp [h1, h2, expand, hu, hd]
+    · simp [h1, h2, expand, hu]
+  · simp [h1, expand]
+
+end Wiring
 
 end NV.C20
